@@ -235,7 +235,7 @@ def run_cli(case):
 @st.composite
 def cli_cases(draw):
     from vlib import cfggen
-    o = draw(cfggen.base_config(nmin=16, nmax=32, min_laststep=4, max_laststep=40, multibunch=False, wake=("none", "collimator")))
+    o = draw(cfggen.base_config(nmin=16, nmax=32, min_laststep=4, max_laststep=40, multibunch=False, wake=("none", "collimator"), via_rev=3))
     mode = draw(st.sampled_from(["mod", "mod", "noise", "both"]))
     d = cfggen.derive(o)
     if mode in ("mod", "both"):
